@@ -7,9 +7,13 @@ import LexVerif.Props.C05Number
 radices, `SlowFacts`. Here `SyntaxFacts` is **proved** from `Props.C05Number` (the radix-`r` versions of
 `number_exact_of_syntax` / `number_truncated_of_syntax`) for every class whose exponent base is the mantissa radix:
 
-* generic radices — `syntaxFacts_generic`, giving `C05_generic_main` (only `SlowFacts` is left);
-* power-of-two radices — `syntaxFacts_pow2`, giving `C05_pow2_main` (only the range of the exponent word, `ExpInRange`,
-  is left: `binary` is proved for `|exponent| ≤ 2^27`, and an explicit exponent of the input can exceed that).
+* generic radices — `syntaxFacts_generic`, giving `C05_generic_main` (only `SlowFacts` is left, and a 55-bit mantissa for
+  radix 31 with `f64`);
+* power-of-two radices, exponent base = radix **and the five mixed-base pairs** (`BasePair`; `Props.C05Number` carries the
+  scale factor `k = log radix / log base` of the implicit exponent) — `syntaxFacts_pow2`, giving `C05_pow2_main`,
+  **unconditional** for inputs shorter than `2^54` bytes: the exponent word is inside `ExpWide` (`±2^59`) by the syntax
+  layer, and `binary` is right there (`Proof.BinaryWide`: the saturating `calculate_power2` of /repo commit 220c4cc);
+* `C05_radix_full_partial`: both, with the remaining hypotheses listed.
 -/
 namespace LexVerif.Props.C05Syntax
 open LexVerif LexVerif.Spec LexVerif.Model LexVerif.Model.ParseFloatAlgo
@@ -89,11 +93,11 @@ theorem litFrac_tv_truncated_r (r stp : Nat) (hr0 : 0 < r) (c : Cfg) (hr : c.man
   rw [hnum, hV]
   exact interval_tv_r r hr0 S n.mantissa (sig.length - stp) fl n.exponent n.explicitExp n.isNegative hS1 hS2 (by omega)
 
-/-- the value of a `Number` whose slices are plain digits: `S·r^E / r^fl` with `S` the value of the significant digits -/
-theorem litFrac_plain (r : Nat) (c : Cfg) (hr : c.mantissaRadix = r) (n : Number) (hs : PlainSlices c n) :
-    litFrac r r (numberLit c n) =
-      (ofDigits r (dv r (sigBytes n.integer n.fraction)) * r ^ n.explicitExp.toNat,
-        r ^ (n.fraction.getD []).length * r ^ (-n.explicitExp).toNat) := by
+/-- the value of a `Number` whose slices are plain digits: `S·b^E / r^fl` with `S` the value of the significant digits -/
+theorem litFrac_plain (r b : Nat) (c : Cfg) (hr : c.mantissaRadix = r) (n : Number) (hs : PlainSlices c n) :
+    litFrac r b (numberLit c n) =
+      (ofDigits r (dv r (sigBytes n.integer n.fraction)) * b ^ n.explicitExp.toNat,
+        r ^ (n.fraction.getD []).length * b ^ (-n.explicitExp).toNat) := by
   obtain ⟨z, hz⟩ := sig_decomp n.integer n.fraction
   have hD : ofDigits r ((numberLit c n).intDigits ++ (numberLit c n).fracDigits) =
       ofDigits r (dv r (sigBytes n.integer n.fraction)) := by
@@ -104,7 +108,51 @@ theorem litFrac_plain (r : Nat) (c : Cfg) (hr : c.mantissaRadix = r) (n : Number
   have hfl : (numberLit c n).fracDigits.length = (n.fraction.getD []).length := by
     rw [hs.fracDigits, dv_length]
   have hE : (numberLit c n).exp = n.explicitExp := rfl
-  rw [litFrac_eq, hD, hfl, hE]
+  rw [C05Number.litFrac_eq2, hD, hfl, hE]
+
+/-! ## the exponent bases of a power-of-two radix -/
+
+/-- the (mantissa radix, exponent base) pairs the code supports, with `k = log(radix)/log(base)`: equal bases, and the
+five mixed pairs 4/2, 8/2, 16/2, 32/2, 16/4 -/
+inductive BasePair : Nat → Nat → Nat → Prop
+  | same (r : Nat) : BasePair r r 1
+  | r4b2 : BasePair 4 2 2
+  | r8b2 : BasePair 8 2 3
+  | r16b2 : BasePair 16 2 4
+  | r32b2 : BasePair 32 2 5
+  | r16b4 : BasePair 16 4 2
+
+theorem BasePair.pow {r b k : Nat} (h : BasePair r b k) : r = b ^ k := by
+  cases h <;> simp
+
+theorem BasePair.k5 {r b k : Nat} (h : BasePair r b k) : k ≤ 5 := by
+  cases h <;> omega
+
+theorem BasePair.k1 {r b k : Nat} (h : BasePair r b k) : 1 ≤ k := by
+  cases h <;> omega
+
+theorem BasePair.isPow2 {r b k : Nat} (h : BasePair r b k) (hr : IsPow2 r) : IsPow2 b := by
+  cases h
+  · exact hr
+  all_goals (unfold IsPow2; decide)
+
+theorem BasePair.scale (c : Cfg) {k : Nat} (h : BasePair c.mantissaRadix c.exponentBase k) (x : Int) :
+    LexVerif.Proof.Sep.scaleVal c x = x * k := by
+  generalize hr : c.mantissaRadix = r at h
+  generalize hb : c.exponentBase = b at h
+  unfold LexVerif.Proof.Sep.scaleVal
+  cases h
+  · rw [if_pos (by rw [hr, hb])]; simp
+  · rw [if_neg (by rw [hr, hb]; decide), hr, hb]; simp [log2Radix]
+  · rw [if_neg (by rw [hr, hb]; decide), hr, hb]; simp [log2Radix]
+  · rw [if_neg (by rw [hr, hb]; decide), hr, hb]; simp [log2Radix]
+  · rw [if_neg (by rw [hr, hb]; decide), hr, hb]; simp [log2Radix]
+  · rw [if_neg (by rw [hr, hb]; decide), hr, hb]
+    simp only [log2Radix]
+    have : x * ((4 : Nat) : Int) = x * 2 * 2 := by push_cast; ring
+    simp
+    have e : x * 4 = x * 2 * 2 := by ring
+    rw [e, Int.mul_tdiv_cancel _ (by decide)]
 
 /-! ## `u64_step` of the syntax layer and of the tables -/
 
@@ -112,6 +160,9 @@ theorem step_facts : ∀ r, r < 37 → 2 ≤ r →
     r ^ u64StepTable.getD (r - 2) 1 ≤ 2 ^ 64 ∧ 1 ≤ u64StepTable.getD (r - 2) 1 := by decide +kernel
 
 theorem step_generic55 : ∀ x ∈ bellRadicesRadix, x ≠ 31 → 2 ^ 55 ≤ x ^ (u64StepTable.getD (x - 2) 1 - 1) := by
+  decide +kernel
+
+theorem step_generic54 : ∀ x ∈ bellRadicesRadix, 2 ^ 54 ≤ x ^ (u64StepTable.getD (x - 2) 1 - 1) := by
   decide +kernel
 
 theorem u64Step_radix (feats : Features) (hr : feats.radix = true) {r : Nat} (h2 : 2 ≤ r) (h36 : r ≤ 36) :
@@ -170,15 +221,13 @@ theorem dv_take (r : Nat) (bs : List Nat) (k : Nat) : (dv r bs).take k = dv r (b
 /-! ## `SyntaxFacts`, generic radices -/
 
 /-- **`SyntaxFacts` for a generic radix** (exponent base = radix, separator-free format class, valid punctuation, input of
-bytes shorter than `2^60`). Radix 31 is the one radix whose smallest `u64_step`-digit mantissa (`31^11 ≈ 2^54.5`) is below
-the 55 bits the bracketing of an invalid-marked Bellerophon estimate is proved for (`h31`). -/
+bytes shorter than `2^60`). Every `u64_step`-digit mantissa has 54 bits; 55 for every radix but 31 (`31^11 ≈ 2^54.5`). -/
 theorem syntaxFacts_generic (feats : Features) (fmt : Format) (G : GenericClass ⟨feats, fmt, false⟩)
     (hfeat : feats.radix = true → feats.powerOfTwo = true)
     (hclass : feats.format = false ∨ C12.SepPrefixFree fmt) (o : POpts)
     (hval : isValidOptionsPunctuation feats fmt o.exp o.dp = true) (isPartial : Bool) (s : List Nat) (fv : Bool)
     (h256 : ∀ x ∈ s, x < 256) (hlen : s.length < 2 ^ 60) (n : Number) (cnt : Nat)
-    (hp : parseFloatSyntax ⟨feats, fmt, false⟩ o isPartial s fv = .ok (.number n cnt))
-    (h31 : fmt.mantissaRadix = 31 → n.manyDigits = true → 2 ^ 55 ≤ n.mantissa) :
+    (hp : parseFloatSyntax ⟨feats, fmt, false⟩ o isPartial s fv = .ok (.number n cnt)) :
     SyntaxFacts ⟨feats, fmt, false⟩ n := by
   have hmem : fmt.mantissaRadix ∈ bellRadicesRadix := G.mem
   have hbase : fmt.exponentBase = fmt.mantissaRadix := G.base
@@ -193,34 +242,40 @@ theorem syntaxFacts_generic (feats : Features) (fmt : Format) (G : GenericClass 
     have h' : feats.powerOfTwo = false := h
     rw [this] at h'; cases h'
   have hdp := C05Number.dp_not_digit_r feats fmt o hval
+  have hsc1 : ∀ x : Int, LexVerif.Proof.Sep.scaleVal ⟨feats, fmt, false⟩ x = x * (1 : Nat) := by
+    intro x; rw [C01Number.scaleVal_same_base ⟨feats, fmt, false⟩ hbase.symm]; simp
   refine ⟨fun hmany => ?_, fun _ hpw => absurd hpw hnp, fun hmany _ => ?_⟩
   · obtain ⟨hx, _, _⟩ := C05Number.number_exact_of_syntax_r fmt.mantissaRadix _ h2 hstp1 hfit ⟨feats, fmt, false⟩ hstep hr8 rfl
-      hclass rfl hbase o hdp isPartial s fv h256 hlen n cnt hp hmany
+      hclass rfl fmt.mantissaRadix 1 (by decide) (by simp) hbase hsc1 o hdp isPartial s fv h256 hlen n cnt hp hmany
     exact ⟨hx, fun hpw => absurd hpw hnp⟩
   · obtain ⟨hs, hN, hw, hw1, hwlt, hq, _, _, _, _⟩ := C05Number.number_truncated_of_syntax_r fmt.mantissaRadix _ h2 hstp1 hfit
-      ⟨feats, fmt, false⟩ hstep hr8 rfl hclass rfl hbase o hdp isPartial s fv h256 hlen n cnt hp hmany
-    refine ⟨by omega, ?_, ?_⟩
-    · by_cases h : fmt.mantissaRadix = 31
-      · exact h31 h hmany
-      · exact Nat.le_trans (step_generic55 _ hmem h) hw1
+      ⟨feats, fmt, false⟩ hstep hr8 rfl hclass rfl fmt.mantissaRadix 1 (by decide) (by simp) hbase hsc1 o hdp isPartial s fv h256 hlen n cnt hp hmany
+    have hq : n.exponent = ((sigBytes n.integer n.fraction).length : Int) - (u64StepTable.getD (fmt.mantissaRadix - 2) 1 : Nat) +
+        n.explicitExp - ((n.fraction.getD []).length : Int) := by rw [hq]; push_cast; ring
+    refine ⟨by omega, Nat.le_trans (step_generic54 _ hmem) hw1, fun h => Nat.le_trans (step_generic55 _ hmem h) hw1, ?_⟩
     · have := litFrac_tv_truncated_r fmt.mantissaRadix _ (by omega) ⟨feats, fmt, false⟩ rfl n hmany hs hN hw hq
       have hb' : (⟨feats, fmt, false⟩ : Cfg).exponentBase = fmt.mantissaRadix := hbase
       rw [hb']
       exact this
 
-/-! ## `SyntaxFacts`, power-of-two radices with the same exponent base -/
+/-! ## `SyntaxFacts`, power-of-two radices: same exponent base and the five mixed-base pairs -/
 
 open LexVerif.Proof.SlowBinary in
-/-- **`SyntaxFacts` for a power-of-two radix with exponent base = radix**; `hexp`: the exponent word is inside `±2^27`
-(the range `binary` is proved for; an explicit exponent of the input can exceed it) -/
+/-- **`SyntaxFacts` for a power-of-two radix with any supported exponent base** (`BasePair`: the radix itself, or the mixed
+pairs 4/2, 8/2, 16/2, 32/2, 16/4); `hexp`: the exponent word is inside `±2^27` (the range `binary` is proved for) -/
 theorem syntaxFacts_pow2 (feats : Features) (fmt : Format) (hpf : feats.powerOfTwo = true)
-    (hpw : IsPow2 fmt.mantissaRadix) (hbase : fmt.exponentBase = fmt.mantissaRadix)
+    (hpw : IsPow2 fmt.mantissaRadix) {k : Nat} (hpair : BasePair fmt.mantissaRadix fmt.exponentBase k)
     (hclass : feats.format = false ∨ C12.SepPrefixFree fmt) (o : POpts)
     (hval : isValidOptionsPunctuation feats fmt o.exp o.dp = true) (isPartial : Bool) (s : List Nat) (fv : Bool)
-    (h256 : ∀ x ∈ s, x < 256) (hlen : s.length < 2 ^ 60) (n : Number) (cnt : Nat)
-    (hp : parseFloatSyntax ⟨feats, fmt, false⟩ o isPartial s fv = .ok (.number n cnt))
-    (hexp : ExpInRange n.exponent) :
+    (h256 : ∀ x ∈ s, x < 256) (hlen54 : s.length < 2 ^ 54) (n : Number) (cnt : Nat)
+    (hp : parseFloatSyntax ⟨feats, fmt, false⟩ o isPartial s fv = .ok (.number n cnt)) :
     SyntaxFacts ⟨feats, fmt, false⟩ n := by
+  have hlen : s.length < 2 ^ 60 := Nat.lt_of_lt_of_le hlen54 (Nat.pow_le_pow_right (by decide) (by decide))
+  have h54 : (2 : Nat) ^ 54 = 18014398509481984 := by decide
+  have h59 : (2 : Int) ^ 59 = 576460752303423488 := by decide
+  have h40 : (2 : Int) ^ 40 = 1099511627776 := by decide
+  have hkc : k = 1 ∨ k = 2 ∨ k = 3 ∨ k = 4 ∨ k = 5 := by
+    have := hpair.k1; have := hpair.k5; omega
   have h2 : 2 ≤ fmt.mantissaRadix := by rcases hpw with h | h | h | h | h <;> rw [h] <;> omega
   obtain ⟨hfit, _, _, hstp1⟩ := u64Step_pow2 feats hpf hpw
   have hstep := u64Step_pow2_eq feats hpf hpw
@@ -229,22 +284,41 @@ theorem syntaxFacts_pow2 (feats : Features) (fmt : Format) (hpf : feats.powerOfT
     have h' : feats.powerOfTwo = false := h
     rw [hpf] at h'; cases h'
   have hdp := C05Number.dp_not_digit_r feats fmt o hval
+  have hsc : ∀ x : Int, LexVerif.Proof.Sep.scaleVal ⟨feats, fmt, false⟩ x = x * k :=
+    BasePair.scale ⟨feats, fmt, false⟩ hpair
+  have hrk := hpair.pow
   refine ⟨fun hmany => ?_, fun hmany _ => ?_, fun _ G => absurd hpw (generic_not_isPow2 G.mem)⟩
-  · obtain ⟨hx, _, _⟩ := C05Number.number_exact_of_syntax_r fmt.mantissaRadix _ h2 hstp1 hfit ⟨feats, fmt, false⟩ hstep hr8 rfl
-      hclass rfl hbase o hdp isPartial s fv h256 hlen n cnt hp hmany
-    exact ⟨hx, fun _ => hexp⟩
-  · obtain ⟨hs, hN, hw, hw1, hwlt, hq, _, _, _, _⟩ := C05Number.number_truncated_of_syntax_r fmt.mantissaRadix _ h2 hstp1 hfit
-      ⟨feats, fmt, false⟩ hstep hr8 rfl hclass rfl hbase o hdp isPartial s fv h256 hlen n cnt hp hmany
+  · obtain ⟨hx, _, _, hbd⟩ := C05Number.number_exact_of_syntax_r fmt.mantissaRadix _ h2 hstp1 hfit ⟨feats, fmt, false⟩ hstep hr8 rfl
+      hclass rfl fmt.exponentBase k hpair.k5 hrk rfl hsc o hdp isPartial s fv h256 hlen n cnt hp hmany
+    exact ⟨hx, fun _ => by unfold LexVerif.Proof.BinaryWide.ExpWide; omega⟩
+  · obtain ⟨hs, hN, hw, hw1, hwlt, hq, hE1, hE2, hl1, hl2⟩ := C05Number.number_truncated_of_syntax_r fmt.mantissaRadix _ h2 hstp1 hfit
+      ⟨feats, fmt, false⟩ hstep hr8 rfl hclass rfl fmt.exponentBase k hpair.k5 hrk rfl hsc o hdp isPartial s fv h256 hlen n cnt hp hmany
     have hbs : ∀ x ∈ sigBytes n.integer n.fraction, x < 256 := by
       intro x hx
       rcases mem_sigBytes hx with h | ⟨fr, hfr, h⟩
       · exact hs.bytesInt x h
       · exact hs.bytesFrac fr hfr x h
     have hsd := sigDigits_eq fmt.mantissaRadix n.integer n.fraction hbs
-    have hV := litFrac_plain fmt.mantissaRadix ⟨feats, fmt, false⟩ rfl n hs
+    have hV := litFrac_plain fmt.mantissaRadix fmt.exponentBase ⟨feats, fmt, false⟩ rfl n hs
     have hr' : (⟨feats, fmt, false⟩ : Cfg).mantissaRadix = fmt.mantissaRadix := rfl
-    have hb' : (⟨feats, fmt, false⟩ : Cfg).exponentBase = fmt.mantissaRadix := hbase
+    have hb' : (⟨feats, fmt, false⟩ : Cfg).exponentBase = fmt.exponentBase := rfl
     have hf' : (⟨feats, fmt, false⟩ : Cfg).feats = feats := rfl
+    have hexp : LexVerif.Proof.BinaryWide.ExpWide n.exponent := by
+      obtain ⟨z, hz⟩ := sig_decomp n.integer n.fraction
+      have hNle : (sigBytes n.integer n.fraction).length ≤ n.integer.length + (n.fraction.getD []).length := by
+        have := congrArg List.length hz
+        rw [List.length_append, List.length_append, List.length_replicate] at this
+        omega
+      have hstp64 : (smallSetOf feats).u64Step fmt.mantissaRadix ≤ 64 := by
+        have h1 : 2 ^ (smallSetOf feats).u64Step fmt.mantissaRadix ≤
+            fmt.mantissaRadix ^ (smallSetOf feats).u64Step fmt.mantissaRadix := Nat.pow_le_pow_left h2 _
+        exact (Nat.pow_le_pow_iff_right (by decide : 1 < 2)).mp (Nat.le_trans h1 hfit)
+      unfold LexVerif.Proof.BinaryWide.ExpWide
+      rw [hq]
+      generalize (sigBytes n.integer n.fraction).length = N at *
+      generalize (smallSetOf feats).u64Step fmt.mantissaRadix = stp at *
+      generalize (n.fraction.getD []).length = fl at *
+      rcases hkc with rfl | rfl | rfl | rfl | rfl <;> push_cast <;> constructor <;> omega
     constructor
     · exact hexp
     · intro x hx
@@ -269,13 +343,18 @@ theorem syntaxFacts_pow2 (feats : Features) (fmt : Format) (hpf : feats.powerOfT
       generalize ofDigits fmt.mantissaRadix (dv fmt.mantissaRadix (sigBytes n.integer n.fraction)) = S
       generalize (sigBytes n.integer n.fraction).length = N at *
       generalize (n.fraction.getD []).length = fl at *
-      generalize fmt.mantissaRadix = r at *
-      have hexpo : n.explicitExp.toNat + ((-n.exponent).toNat + (N - stp)) =
-          n.exponent.toNat + (fl + (-n.explicitExp).toNat) := by omega
-      calc S * r ^ n.explicitExp.toNat * (r ^ (-n.exponent).toNat * r ^ (N - stp))
-          = S * r ^ (n.explicitExp.toNat + ((-n.exponent).toNat + (N - stp))) := by
+      generalize fmt.exponentBase = b at *
+      rw [hrk, ← Nat.pow_mul, ← Nat.pow_mul]
+      have hq' : n.exponent = ((k * (N - stp) : Nat) : Int) - ((k * fl : Nat) : Int) + n.explicitExp := by
+        rw [hq]; push_cast [Nat.cast_sub (Nat.le_of_lt hN)]; ring
+      generalize k * (N - stp) = T1 at *
+      generalize k * fl = T2 at *
+      have hexpo : n.explicitExp.toNat + ((-n.exponent).toNat + T1) =
+          n.exponent.toNat + (T2 + (-n.explicitExp).toNat) := by omega
+      calc S * b ^ n.explicitExp.toNat * (b ^ (-n.exponent).toNat * b ^ T1)
+          = S * b ^ (n.explicitExp.toNat + ((-n.exponent).toNat + T1)) := by
             rw [Nat.pow_add, Nat.pow_add]; ring
-        _ = S * r ^ n.exponent.toNat * (r ^ fl * r ^ (-n.explicitExp).toNat) := by
+        _ = S * b ^ n.exponent.toNat * (b ^ T2 * b ^ (-n.explicitExp).toNat) := by
             rw [hexpo, Nat.pow_add, Nat.pow_add]; ring
 
 /-! ## API level -/
@@ -284,13 +363,14 @@ theorem syntaxFacts_pow2 (feats : Features) (fmt : Format) (hpf : feats.powerOfT
 exponent base = radix), separator-free format classes of C12, `f32`/`f64`, complete and partial parser, inputs of bytes
 shorter than `2^60`: the pipeline with the modelled slow path prints what the specification prints. The syntax layer is
 discharged; what remains, per `Number` of the input: `hslow` (`SlowFacts`: what `digit_comp` / `byte_comp` make of a
-bracketing invalid-marked estimate) and, for radix 31 only, `h31` (a truncated mantissa of at least 55 bits). -/
+bracketing invalid-marked estimate) and, for radix 31 with `f64` only, `h31` (a truncated mantissa of at least 55 bits;
+`f32` needs 54, which every `u64_step`-digit mantissa has). -/
 theorem C05_generic_main (feats : Features) (fmt : Format) (G : GenericClass ⟨feats, fmt, false⟩)
     (hfeat : feats.radix = true → feats.powerOfTwo = true)
     (hclass : feats.format = false ∨ C12.SepPrefixFree fmt)
     (o : POpts) {F : FTy} (hF : IsLemireFloat F) (isPartial : Bool) (s : List Nat)
     (h256 : ∀ x ∈ s, x < 256) (hlen : s.length < 2 ^ 60)
-    (h31 : fmt.mantissaRadix = 31 → ∀ n cnt, parseFloatSyntax ⟨feats, fmt, false⟩ o isPartial s
+    (h31 : fmt.mantissaRadix = 31 → F = FTy.f64 → ∀ n cnt, parseFloatSyntax ⟨feats, fmt, false⟩ o isPartial s
       (formatError feats fmt).isNone = .ok (.number n cnt) → n.manyDigits = true → 2 ^ 55 ≤ n.mantissa)
     (hslow : ∀ n cnt, parseFloatSyntax ⟨feats, fmt, false⟩ o isPartial s (formatError feats fmt).isNone =
       .ok (.number n cnt) → SlowFacts slowModel ⟨feats, fmt, false⟩ F n) :
@@ -298,38 +378,79 @@ theorem C05_generic_main (feats : Features) (fmt : Format) (G : GenericClass ⟨
   apply C01Final.parseFloatAlgoModel_eq_valid
   intro hval n cnt hp
   exact numberToFloat_radix slowModel hF ⟨feats, fmt, false⟩ (.generic G) n
-    (syntaxFacts_generic feats fmt G hfeat hclass o hval isPartial s _ h256 hlen n cnt hp (fun h => h31 h n cnt hp))
-    (fun _ => hslow n cnt hp)
+    (syntaxFacts_generic feats fmt G hfeat hclass o hval isPartial s _ h256 hlen n cnt hp)
+    (fun _ => hslow n cnt hp) (fun h hf => h31 h hf n cnt hp)
 
-/-- **`C05_pow2_main`** — power-of-two radices (2, 4, 8, 16, 32) with exponent base = radix, every `power-of-two` build:
-**no slow-path hypothesis** (`binary` / `slow_binary` are proved); what remains, per `Number` of the input: `hexp`, the
-exponent word inside `±2^27`. -/
+/-- **`C05_pow2_main`** — power-of-two radices (2, 4, 8, 16, 32) with every supported exponent base (`BasePair`: the radix
+itself and the five mixed pairs 4/2, 8/2, 16/2, 32/2, 16/4 — hex floats with a binary exponent), every `power-of-two` build:
+inputs of bytes shorter than `2^54`: **unconditional** — no slow-path hypothesis (`binary` / `slow_binary` are proved) and no
+exponent hypothesis (`binary` with the saturating `calculate_power2` of /repo commit 220c4cc is right on `ExpWide`, which the
+syntax layer guarantees for such inputs: the explicit exponent saturates below `2^40`). -/
 theorem C05_pow2_main (feats : Features) (fmt : Format) (hpf : feats.powerOfTwo = true)
-    (hpw : IsPow2 fmt.mantissaRadix) (hbase : fmt.exponentBase = fmt.mantissaRadix)
+    (hpw : IsPow2 fmt.mantissaRadix) {k : Nat} (hpair : BasePair fmt.mantissaRadix fmt.exponentBase k)
     (hclass : feats.format = false ∨ C12.SepPrefixFree fmt)
     (o : POpts) {F : FTy} (hF : IsLemireFloat F) (isPartial : Bool) (s : List Nat)
-    (h256 : ∀ x ∈ s, x < 256) (hlen : s.length < 2 ^ 60)
-    (hexp : ∀ n cnt, parseFloatSyntax ⟨feats, fmt, false⟩ o isPartial s (formatError feats fmt).isNone =
-      .ok (.number n cnt) → ExpInRange n.exponent) :
+    (h256 : ∀ x ∈ s, x < 256) (hlen : s.length < 2 ^ 54) :
     parseFloatAlgoModel slowModel feats fmt o isPartial F s = parseFloatModel feats fmt o isPartial F.fmt s := by
   apply C01Final.parseFloatAlgoModel_eq_valid
   intro hval n cnt hp
-  have hb2 : IsPow2 (⟨feats, fmt, false⟩ : Cfg).exponentBase := by
-    have : (⟨feats, fmt, false⟩ : Cfg).exponentBase = fmt.mantissaRadix := hbase
-    rw [this]; exact hpw
+  have hb2 : IsPow2 (⟨feats, fmt, false⟩ : Cfg).exponentBase := hpair.isPow2 hpw
   exact numberToFloat_radix slowModel hF ⟨feats, fmt, false⟩ (.pow2 hpf hpw hb2) n
-    (syntaxFacts_pow2 feats fmt hpf hpw hbase hclass o hval isPartial s _ h256 hlen n cnt hp (hexp n cnt hp))
+    (syntaxFacts_pow2 feats fmt hpf hpw hpair hclass o hval isPartial s _ h256 hlen n cnt hp)
     (fun G => absurd hpw (generic_not_isPow2 G.mem))
+    (fun h => by
+      have h' : fmt.mantissaRadix = 31 := h
+      rw [h'] at hpw; unfold IsPow2 at hpw; omega)
+
+/-- **`C05_radix_full_partial`** — what is proved of `C05_radix_full`, with the remaining hypotheses listed. For every
+non-decimal radix class — power-of-two radices 2, 4, 8, 16, 32 of `power-of-two` builds with the exponent base equal to the
+radix or one of the five mixed pairs (`BasePair`), and the 29 generic radices of `radix` builds (`compact` or not) with
+exponent base = radix —, separator-free format classes of C12, `f32`/`f64`, complete and partial parser, inputs of bytes
+shorter than `2^54`: `parseFloatAlgoModel slowModel = parseFloatModel`.
+
+* power-of-two radices: **no remaining hypothesis**;
+* generic radices: `hslow` — per `Number` of the input, `SlowFacts`: what `slow_radix` (`digit_comp` for even, `byte_comp`
+  for odd radices) returns for the un-biased, invalid-marked Bellerophon estimate that brackets the value. Its content is
+  proved on the models (`Props.C01Slow.slow_radix_correct_full_proved`, `Props.C05Bytes.slow_radix_bytes_correct`) under
+  their domain conditions — `SlowDomain` (capacity of `BIGINT_LIMBS`, exponent range) resp. `FirstDigitFits` and no capacity
+  failure of the 18-limb `Bigfloat` — which are not derived from the input here;
+* radix 31, `f64`: `h31` — a truncated mantissa word of at least 55 bits (`31^11 ≈ 2^54.5`; the bracketing of an
+  invalid-marked estimate is proved from 55 bits for `f64`, from 54 for `f32`). -/
+theorem C05_radix_full_partial (feats : Features) (fmt : Format)
+    (R : (feats.powerOfTwo = true ∧ IsPow2 fmt.mantissaRadix ∧ ∃ k, BasePair fmt.mantissaRadix fmt.exponentBase k) ∨
+      GenericClass ⟨feats, fmt, false⟩)
+    (hfeat : feats.radix = true → feats.powerOfTwo = true)
+    (hclass : feats.format = false ∨ C12.SepPrefixFree fmt)
+    (o : POpts) {F : FTy} (hF : IsLemireFloat F) (isPartial : Bool) (s : List Nat)
+    (h256 : ∀ x ∈ s, x < 256) (hlen : s.length < 2 ^ 54)
+    (hslow : GenericClass ⟨feats, fmt, false⟩ → ∀ n cnt, parseFloatSyntax ⟨feats, fmt, false⟩ o isPartial s
+      (formatError feats fmt).isNone = .ok (.number n cnt) → SlowFacts slowModel ⟨feats, fmt, false⟩ F n)
+    (h31 : fmt.mantissaRadix = 31 → F = FTy.f64 → ∀ n cnt, parseFloatSyntax ⟨feats, fmt, false⟩ o isPartial s
+      (formatError feats fmt).isNone = .ok (.number n cnt) → n.manyDigits = true → 2 ^ 55 ≤ n.mantissa) :
+    parseFloatAlgoModel slowModel feats fmt o isPartial F s = parseFloatModel feats fmt o isPartial F.fmt s := by
+  rcases R with ⟨hpf, hpw, k, hpair⟩ | G
+  · exact C05_pow2_main feats fmt hpf hpw hpair hclass o hF isPartial s h256 hlen
+  · exact C05_generic_main feats fmt G hfeat hclass o hF isPartial s h256
+      (Nat.lt_of_lt_of_le hlen (Nat.pow_le_pow_right (by decide) (by decide))) h31 (hslow G)
 
 /-- non-vacuity: the hexadecimal format (exponent base 16) of a `power-of-two` build; the radix-3 format of a `radix` build -/
-example (s : List Nat) (h256 : ∀ x ∈ s, x < 256) (hlen : s.length < 2 ^ 60)
-    (hexp : ∀ n cnt, parseFloatSyntax ⟨{ powerOfTwo := true }, ⟨0x0a10100000000000000000000000000c⟩, false⟩ {} false s
-      (formatError { powerOfTwo := true } ⟨0x0a10100000000000000000000000000c⟩).isNone = .ok (.number n cnt) →
-      ExpInRange n.exponent) :
+example (s : List Nat) (h256 : ∀ x ∈ s, x < 256) (hlen : s.length < 2 ^ 54) :
     parseFloatAlgoModel slowModel { powerOfTwo := true } ⟨0x0a10100000000000000000000000000c⟩ {} false FTy.f64 s =
       parseFloatModel { powerOfTwo := true } ⟨0x0a10100000000000000000000000000c⟩ {} false f64 s :=
   C05_pow2_main { powerOfTwo := true } ⟨0x0a10100000000000000000000000000c⟩ rfl
-    (by unfold IsPow2; decide) (by decide) (Or.inl rfl) {} (Or.inl rfl) false s h256 hlen hexp
+    (by unfold IsPow2; decide) (BasePair.same 16) (Or.inl rfl) {} (Or.inl rfl) false s h256 hlen
+
+/-- non-vacuity for a mixed-base pair: hexadecimal digits with a binary exponent (hex floats) -/
+example (s : List Nat) (h256 : ∀ x ∈ s, x < 256) (hlen : s.length < 2 ^ 54) :
+    parseFloatAlgoModel slowModel { powerOfTwo := true } ⟨0x0a02100000000000000000000000000c⟩ {} false FTy.f64 s =
+      parseFloatModel { powerOfTwo := true } ⟨0x0a02100000000000000000000000000c⟩ {} false f64 s :=
+  C05_pow2_main { powerOfTwo := true } ⟨0x0a02100000000000000000000000000c⟩ rfl
+    (by unfold IsPow2; decide) (k := 4)
+    (by
+      have h1 : (⟨0x0a02100000000000000000000000000c⟩ : Format).mantissaRadix = 16 := by decide
+      have h2 : (⟨0x0a02100000000000000000000000000c⟩ : Format).exponentBase = 2 := by decide
+      rw [h1, h2]; exact .r16b2)
+    (Or.inl rfl) {} (Or.inl rfl) false s h256 hlen
 
 example : GenericClass ⟨{ powerOfTwo := true, radix := true }, ⟨0x0303030000000000000000000000000c⟩, false⟩ :=
   ⟨rfl, by decide, by decide⟩
